@@ -55,6 +55,7 @@ class Obj(object):
         self.fields = dict(fields or {})
         self.oid = fresh_oid()
         self.name = name
+        self.methods = {}           # abstract objects: name -> native callable(I, args, kwargs)
 
     def clsname(self):
         return self.cls if isinstance(self.cls, str) else self.cls.qualname
